@@ -48,7 +48,7 @@ func guarded(f func() error) (outcome, site string) {
 			outcome = "panic"
 			site = fmt.Sprint(r)
 			for _, ln := range strings.Split(string(debug.Stack()), "\n") {
-				if strings.Contains(ln, "/repo/") {
+				if ln = strings.Replace(ln, repoRoot()+"/", "/repo/", 1); strings.Contains(ln, "/repo/") {
 					site += " @ " + strings.TrimSpace(strings.Split(ln, " +")[0])
 					break
 				}
